@@ -47,17 +47,22 @@ def search_witness(u, plain, work, tier):
     return None, 'bounded search (%s) found no failing input: %s' % (bound, p.stdout.strip()[-300:])
 
 
-def write_replay(prop, u, base, f, work, tier):
+def write_replay(prop, u, base, f, work, tier, donor=None):
     os.makedirs(os.path.join(ROOT, 'replays'), exist_ok=True)
     witness, note = None, ''
     if u['backend'] == 'verus':
         witness, note = search_witness(u, base['asm'].plain, work, tier)
-    elif u['backend'] == 'kani':
+    elif u['backend'] in ('kani', 'native'):
         witness, note = getattr(f, 'witness', None), getattr(f, 'witness_note', '')
+    replay_unit = u['name']
+    if witness is None and donor is not None:
+        du, df = donor
+        witness, replay_unit = df.witness, du['name']
+        note = 'the verifier gives no model; failing input taken from the bounded native search of unit %s on the real crate (%s)' % (du['name'], df.witness_note)
     safe = ''.join(c if c.isalnum() else '_' for c in f.obligation)[:80]
     path = os.path.join(ROOT, 'replays', '%s_%s_%s.json' % (prop, u['name'], safe))
     doc = {
-        'property': prop, 'unit': u['name'], 'backend': u['backend'],
+        'property': prop, 'unit': u['name'], 'backend': u['backend'], 'replay_unit': replay_unit,
         'failed_obligation': f.obligation, 'verifier_message': f.message, 'location': f.where,
         'verifier_output': f.rendered,
         'witness': witness, 'witness_note': note,
@@ -71,7 +76,7 @@ def write_replay(prop, u, base, f, work, tier):
 
 def do_replay(prop, path, units):
     doc = json.load(open(path))
-    u = units.get(doc['unit'])
+    u = units.get(doc.get('replay_unit') or doc['unit'])
     if u is None:
         print('replay: unit %s not found' % doc['unit'])
         return 2
@@ -102,6 +107,9 @@ def do_replay(prop, path, units):
                 return 0
             print('UNDECIDED replay-diverged rc=%d %s' % (p.returncode, p.stderr[-500:]))
             return 2
+        elif u['backend'] == 'native':
+            from .native_backend import replay_native
+            return replay_native(prop, path, doc, u, work)
         else:
             from .kani_backend import replay_kani
             return replay_kani(prop, path, doc, u, work)
